@@ -3846,6 +3846,57 @@ Proof.
   repeat split; repeat constructor; simpl; try lia; intuition congruence.
 Qed.
 
+(* ====================================================================== COO -> CSR row pointers of _dot *)
+Definition prefix_count (rows : list Z) (r : Z) : Z := Z.of_nat (length (filter (fun x => x <? r) rows)).
+
+Lemma prefix_count_step rows r :
+  prefix_count rows (r + 1) = prefix_count rows r + Z.of_nat (length (filter (Z.eqb r) rows)).
+Proof.
+  unfold prefix_count. induction rows as [|x rows IH]; simpl; [reflexivity|].
+  destruct (Z.ltb_spec x (r + 1)); destruct (Z.ltb_spec x r); destruct (Z.eqb_spec r x); try lia; simpl length; lia.
+Qed.
+
+Lemma cumsum_bincount rows : forall m s,
+  cumsum (prefix_count rows (Z.of_nat s))
+         (map (fun j => Z.of_nat (length (filter (Z.eqb (Z.of_nat j)) rows))) (seq s m))
+  = map (fun j => prefix_count rows (Z.of_nat j + 1)) (seq s m).
+Proof.
+  induction m as [|m IH]; intros s; simpl; [reflexivity|].
+  rewrite <- prefix_count_step. f_equal.
+  replace (Z.of_nat s + 1) with (Z.of_nat (S s)) by lia. apply IH.
+Qed.
+
+(* with the dtypes the source uses (Gen/S_dot.v), the row pointers of both operands are the exact cumulative
+   counts — whatever the width of the coordinate dtype and however many elements are stored *)
+Theorem coo_indptr_exact_proof (bits : Z) (signed : bool) (rows : list Z) (n_row : Z) :
+  0 <= n_row -> Forall (fun x => 0 <= x < n_row) rows ->
+  let exact := map (prefix_count rows) (zrange (n_row + 1)) in
+  coo_indptr_a bits signed rows n_row = exact /\ coo_indptr_b bits signed rows n_row = exact
+  /\ znth exact 0 (-1) = 0 /\ znth exact n_row (-1) = Z.of_nat (length rows)
+  /\ dot_index_arrays_wide = true.
+Proof.
+  intros Hn Hr exact.
+  assert (P0 : prefix_count rows 0 = 0).
+  { unfold prefix_count. rewrite Forall_forall in Hr. replace (filter (fun x => x <? 0) rows) with (@nil Z); [reflexivity|].
+    symmetry. clear -Hr. induction rows as [|x rows IH]; simpl; [reflexivity|].
+    destruct (Z.ltb_spec x 0); [specialize (Hr x (or_introl eq_refl)); lia|]. apply IH. intros y Hy. apply Hr. right. exact Hy. }
+  assert (Pn : prefix_count rows n_row = Z.of_nat (length rows)).
+  { unfold prefix_count. f_equal. f_equal. rewrite Forall_forall in Hr. clear -Hr. induction rows as [|x rows IH]; simpl; [reflexivity|].
+    destruct (Z.ltb_spec x n_row); [|specialize (Hr x (or_introl eq_refl)); lia]. f_equal. apply IH. intros y Hy. apply Hr. right. exact Hy. }
+  assert (E : coo_csr_indptr 0 bits signed rows n_row = exact).
+  { unfold coo_csr_indptr, exact, bincount, zrange. simpl Z.eqb. cbv iota. rewrite map_id.
+    replace (Z.to_nat (n_row + 1)) with (S (Z.to_nat n_row)) by lia.
+    change (seq 0 (S (Z.to_nat n_row))) with (0%nat :: seq 1 (Z.to_nat n_row)).
+    cbn [map]. change (Z.of_nat 0) with 0. rewrite P0. f_equal. rewrite <- seq_shift, !map_map.
+    pose proof (cumsum_bincount rows (Z.to_nat n_row) 0) as C. change (Z.of_nat 0) with 0 in C. rewrite P0 in C.
+    rewrite C. apply map_ext. intros j. f_equal. lia. }
+  split; [exact E|]. split; [exact E|]. split.
+  - unfold exact, znth, zrange. replace (Z.to_nat (n_row + 1)) with (S (Z.to_nat n_row)) by lia. simpl. exact P0.
+  - split; [|reflexivity]. unfold exact, znth.
+    rewrite (nth_indep _ (-1) (prefix_count rows 0)) by (rewrite map_length; unfold zrange; rewrite map_length, seq_length; lia).
+    rewrite map_nth. rewrite nth_zrange by lia. exact Pn.
+Qed.
+
 (* ====================================================================== non-vacuity *)
 (* the hypotheses of the theorems above hold of concrete non-trivial operands over Z *)
 Definition exA : csr Z := mkCSR [1; 2; 3] [0; 1; 2] [0; 2; 3; 3].           (* 3 x 3, one empty row *)
@@ -3938,3 +3989,10 @@ Example csc_ndarray_example :
   dot_csc_ndarray_sparse Z 0 Z.add Z.mul Z.eqb 2 3 3 ac bd = KOk (mkCSR [0; -2; -11; 10] [0; 1; 0; 1] [0; 0; 2; 4]) /\
   dot_csc_ndarray_sparse Z 0 Z.add Z.mul Z.eqb 3 3 2 a2 b2 = KOk (mkCSR [-6; 4; -3; 2] [0; 2; 0; 2] [0; 2; 4]).
 Proof. vm_compute. repeat split; reflexivity. Qed.
+
+(* an int8 coordinate dtype and 200 stored elements in 3 rows: the exact pointers exceed 127; allocated in the
+   coordinate dtype (code 1) they would wrap *)
+Example coo_indptr_example :
+  let rows := repeat 0 70 ++ repeat 1 70 ++ repeat 2 60 in
+  coo_indptr_a 8 true rows 3 = [0; 70; 140; 200] /\ coo_csr_indptr 1 8 true rows 3 = [0; 70; -116; -56].
+Proof. vm_compute. split; reflexivity. Qed.
